@@ -19,3 +19,9 @@ check('C12',
       'Stub Evolver (its answers are symbolic flags); database untouchedness is implied only via "evolve() not called"; Evolver.__init__ baseline writing is outside; names come from finite pools. Trusted: CrossHair+z3, reference verdicts in harness/c12.py.',
       'CrossHair symbolic execution (z3) of management/commands/evolve.py and mutations simulate(), counterexamples replayed concretely',
       design_ref='5.9')
+
+check('C17',
+      'Bounded model checking of the real signal-emitting code (Evolver.evolve, EvolveAppTask.execute/_create_models/execute_tasks, MigrationExecutor._on_progress) with the work between signals stubbed and the failing step, task counts and batch shapes symbolic: evolving/evolved/evolving_failed pairing and the process-wide lock, applying/applied and creating/created pairing, batch-accurate payloads, signal order = batch order.',
+      'Work between signals is stubbed (tasks, run_sql, apply_migrations, pre/post-sync emitters, signature saving); payload-vs-executed-SQL correspondence is outside. Trusted: CrossHair+z3, the expected-trace oracles in harness/c17.py.',
+      'CrossHair symbolic execution (z3) of evolve/evolver.py, evolve/evolve_app_task.py, utils/migrations.py emission code with stubbed work, counterexamples replayed concretely',
+      design_ref='5.14')
